@@ -111,6 +111,16 @@ class FlattenNestedLoopsPattern(RewritePattern):
             user.result.replace_all_uses_with(inner_index)
             rewriter.erase(user)
             new_ub = op.ub
+            lb_c, ub_c = const_evaluate_operand(op.lb), const_evaluate_operand(op.ub)
+            if lb_c is None or ub_c is None or (ub_c > lb_c and (ub_c - lb_c) % outer_step):
+                # The last outer iteration runs its whole inner loop even when it crosses
+                # ub: round the range up to a multiple of the outer step.
+                span = arith.SubiOp(op.ub, op.lb)
+                trips = arith.CeilDivSIOp(span, op.step)
+                whole = arith.MuliOp(trips, op.step)
+                new_ub_op = arith.AddiOp(op.lb, whole)
+                rewriter.insert((span, trips, whole, new_ub_op))
+                new_ub = new_ub_op.result
             new_step = inner_loop.step
         else:
             if (outer_lb := const_evaluate_operand(op.lb)) is None:
